@@ -278,3 +278,19 @@ func VerifInitialConsts() [][2]any {
 		{"PP_initialLabelServer", verifCoqString(verifInitialLabel(false))},
 	}
 }
+
+// VerifRetryConsts: the Retry integrity nonces (package variables) for the constants translator.
+func VerifRetryConsts() [][2]any {
+	hexs := func(b []byte) string {
+		const d = "0123456789abcdef"
+		out := make([]byte, 0, 2*len(b))
+		for _, x := range b {
+			out = append(out, d[x>>4], d[x&15])
+		}
+		return string(out)
+	}
+	return [][2]any{
+		{"PP_retryNonceV1", verifCoqString(hexs(retryNonceV1[:]))},
+		{"PP_retryNonceV2", verifCoqString(hexs(retryNonceV2[:]))},
+	}
+}
